@@ -117,18 +117,8 @@ fn small_scope(max_kf: usize) -> Vec<TlSpec> {
 
 fn random_case<S: Shape>(r: &mut Rng, acc: &mut Acc, index: u64, verbose: bool) {
     let kinds = &S::KINDS[..S::N_ANIM];
-    let mut spec = gen_tl(r, kinds, &GenOpts { neg_delay: true, ..GenOpts::default() });
-    // keyframes are not always added in ascending order: among keyframes at the same position the one added
-    // first comes first (the model sorts stably), whatever was added in between
-    match r.below(6) {
-        0 => r.shuffle(&mut spec.kfs),
-        1 if spec.kfs.len() > 1 => {
-            // one straggler: a keyframe added after all later ones
-            let k = spec.kfs.remove(r.usize(spec.kfs.len() - 1));
-            spec.kfs.push(k);
-        }
-        _ => {}
-    }
+    // keyframes are not always added in ascending order (GenOpts::shuffle)
+    let spec = gen_tl(r, kinds, &GenOpts { neg_delay: true, shuffle: true, ..GenOpts::default() });
     let subst: Option<Vec<f64>> = if r.chance(1, 2) {
         Some(S::KINDS.iter().map(|k| gen_value(r, *k)).collect())
     } else {
